@@ -29,13 +29,31 @@ def chains(ck, seed, thorough, corrupt=None):
                 combos.append((prop, outl, sub))
     if not thorough:
         combos = combos[::2] + [("semi-adapted", 0.2, 0.5)]
+    # nested clones (sharply peaked tables: two clonal points, a subclone of three, two points that contradict each other
+    # between the samples and tend to become outliers) with frequent subtree updates: the subtree move then picks inner
+    # blocks and hands them the outliers (it edits its input tree in place)
+    combos += [("semi-adapted", 0.21, 0.6), ("bootstrap", 0.21, 0.6)]
+
+    def peaked(peak, G=7):
+        r = np.ones(G, dtype=int)
+        r[peak] = 200
+        for q in (peak - 1, peak + 1):
+            if 0 <= q < G:
+                r[q] = 20
+        return r
+
     for ci, (prop, outl, sub) in enumerate(combos):
-        n = 4 + (ci % 2)
-        tab = gridoracle.int_tables(n, 2, 11, seed + ci, lo=1, hi=9)
+        nested = outl == 0.21
+        if nested:
+            tab = np.array([[peaked(a), peaked(b)] for a, b in ((6, 6), (6, 6), (3, 3), (3, 2), (2, 3), (6, 0), (0, 6))])
+            n = tab.shape[0]
+        else:
+            n = 4 + (ci % 2)
+            tab = gridoracle.int_tables(n, 2, 11, seed + ci, lo=1, hi=9)
         data = gridoracle.data_from_tables(tab, outlier_prob=outl)
         rec = recorder.ChainRecorder(inner_moves=True)
         res, err = recorder.run_chain(data, seed * 1000 + ci, rec=rec, proposal=prop, outlier_prob=outl, subtree_update_prob=sub,
-                                      num_iters=(120 if thorough else 40), burnin=2, num_particles=4)
+                                      num_iters=(120 if thorough else 40), burnin=2, num_particles=(6 if nested else 4))
         label = "%s|outl=%s|sub=%s|n=%d" % (prop, outl, sub, n)
         if err:
             ck.violation("C07|chain|exception:%s" % err.split(":")[0], "chain aborted: %s [%s]" % (err, label), {"config": label, "events": len(rec.events)})
@@ -50,6 +68,19 @@ def chains(ck, seed, thorough, corrupt=None):
                         ev["sampler"], sorted(absstate.data_ids(ev["out"])), sorted(absstate.data_ids(ev["in"])), label), {"config": label})
             elif ev["ev"] == "append" and "tree_error" in ev:
                 ck.violation("C07|chain|malformed|trace_entry", "trace entry holds a malformed tree: %s [%s]" % (ev["tree_error"], label), {"config": label})
+        # the recorded entries restored at the END of the run: no later move may have damaged a tree already handed out
+        if res is not None:
+            from phyclone.tree import Tree
+            for j, en in enumerate(res["trace"]):
+                try:
+                    k_end = absstate.project(Tree.from_dict(en["tree"]), full=True)[0]
+                    if absstate.data_ids(k_end) != set(range(n)):
+                        ck.violation("C07|chain|recorded_tree_lost_data", "trace entry %d restored after the run holds data %s of %s [%s]" % (
+                            j, sorted(absstate.data_ids(k_end)), list(range(n)), label), {"config": label, "entry": j})
+                        break
+                except absstate.Inconsistent as ex:
+                    ck.violation("C07|chain|recorded_tree_malformed", "trace entry %d restored after the run is malformed: %s [%s]" % (j, ex, label), {"config": label, "entry": j})
+                    break
         recorded.append((label, outl > 0, rec.events))
         ck.nontrivial("chain:" + label)
     # every recorded step against the move relations (TraceMoves.tla): continuity, candidate sets, block structure
@@ -58,6 +89,47 @@ def chains(ck, seed, thorough, corrupt=None):
     ck.traces_validated += len(combos)
     ck.extra["chain_events_checked"] = n_events
     return rejected
+
+
+def graft_histories(ck, n=5):
+    """Every forest on n points (enumerated by TLC, Density.tla) rebuilt the way the subtree move builds trees: a clone's
+    subtree cut out of a copy (the remaining clones keep their labels, with gaps) and a freshly built subtree - of the
+    same shape, or one clone holding all its data - grafted where it hung.  The result must be a well-formed forest
+    with exactly the expected clades and outliers."""
+    from . import c03
+    from .. import gridoracle
+    cfg = tlc.cfg_text(constants={"N": n, "OutliersOn": "TRUE", "Dump": "TRUE"}, invariants=["FeatConsistent", "Emit"])
+    r = tlc.run_tlc("c07_forests", "Density", cfg, timeout=3000)
+    tlc.require_ok(r, "Density (forest enumeration)")
+    ck.add_tlc("Density.tla N=%d: all forests (cut-and-graft histories)" % n, r)
+    keys = [absstate.canon(x["st"]) for x in r.json_prints]
+    keys = [k for k in keys if absstate.data_ids(k) == set(range(n)) and len(k[0]) >= 2]
+    data = gridoracle.data_from_tables(gridoracle.int_tables(n, 1, 3, 11), outlier_prob=0.2)
+    nvar = 0
+    for key in sorted(keys, key=absstate.key_str):
+        tree0 = absstate.build(key, data)
+        try:
+            variants = c03.cut_and_graft_variants(key, data, tree0)
+        except Exception as ex:  # noqa
+            import traceback
+            if not any("/phyclone/" in f.filename for f in traceback.extract_tb(ex.__traceback__)):
+                raise
+            ck.violation("C07|graft_history|exception", "cutting and grafting a subtree of %s raised %s: %s" % (absstate.key_str(key), type(ex).__name__, ex), {"state": absstate.to_json(key)})
+            continue
+        for vname, t, vkey in variants:
+            nvar += 1
+            try:
+                got = absstate.project(t, full=True)[0]
+            except absstate.Inconsistent as ex:
+                ck.violation("C07|graft_history|malformed", "the tree built by %s from %s is not a well-formed forest: %s" % (vname, absstate.key_str(key), ex), {"state": absstate.to_json(key), "variant": vname})
+                continue
+            if got != vkey:
+                ck.violation("C07|graft_history|wrong_tree", "the tree built by %s from %s holds %s, expected %s" % (vname, absstate.key_str(key), absstate.key_str(got), absstate.key_str(vkey)),
+                             {"state": absstate.to_json(key), "variant": vname})
+        ck.nontrivial("graft:" + absstate.key_str(key))
+    ck.evaluations += nvar
+    ck.traces_validated += len(keys)
+    ck.extra["graft_histories"] = nvar
 
 
 def run(corrupt=None):
@@ -126,6 +198,7 @@ def run(corrupt=None):
     for tr in unmatched[:3]:
         ck.model_drift("recorded conditional-SMC swarms are not a behaviour of PGibbsSM (start %s)" % json.dumps(tr["s0"]))
     ck.extra["swarm_traces_recorded"] = total
+    graft_histories(ck)
     # --- seeded end-to-end chains
     rejected = chains(ck, seed, thorough, corrupt=corrupt)
     ck.extra["trace_moves_rejections"] = [list(x) for x in (rejected or [])][:10]
